@@ -195,13 +195,22 @@ def part_equals(tier):
     desc = 'equals(%r)' % (spec,)
     probes = [spec, spec + '\n', spec + '\n\n', spec + 'x', 'x' + spec, spec.upper(),
               spec[:-1], '\n' + spec, spec + ' ', spec + '\n ', spec + '\r\n', 'abc', 'aXc', 'z', 5, None]
-    for p in probes:
-      exp = ref.equals_str(spec, p)
-      got, exc = truthy_call(obj, p)
-      part.case(('str', desc, repr(p)), {'validator': desc, 'value': repr(p), 'accepted': got})
-      if got != exp:
-        part.bad('call:%s:%s:exp=%s' % (cls_of(desc), fmt(p), exp), '%s(%r) accepted=%s (exc=%r) expected %s' % (desc, p, got, exc, exp),
-                 {'validator': desc, 'value': repr(p)})
+    probes += [spec.replace('.', 'x'), spec.replace('$', ''), spec.replace('[z]', 'z'), spec.replace('(', '')]
+    import copy  # pylint: disable=g-import-not-at-top
+    for how, o in (('', obj), ('deepcopy:', None), ('copy:', None)):
+      if how:
+        try:
+          o = copy.deepcopy(obj) if how == 'deepcopy:' else copy.copy(obj)
+        except Exception as e:  # pylint: disable=broad-except
+          part.bad('%s%s:raised' % (how, cls_of(desc)), '%s of %s raised %r' % (how, desc, e), {'validator': desc})
+          continue
+      for p in probes:
+        exp = ref.equals_str(spec, p)
+        got, exc = truthy_call(o, p)
+        part.case(('str', how + desc, repr(p)), {'validator': how + desc, 'value': repr(p), 'accepted': got})
+        if got != exp:
+          part.bad('%scall:%s:%s:exp=%s' % (how, cls_of(desc), fmt(p), exp), '%s%s(%r) accepted=%s (exc=%r) expected %s' % (how, desc, p, got, exc, exp),
+                   {'validator': desc, 'value': repr(p)})
   for spec in [None, [1, 2], (1, 'a'), {'k': 1}]:
     obj = v.equals(spec)
     desc = 'equals(%r)' % (spec,)
